@@ -154,9 +154,19 @@ def run(tier, seed):
         # simplify / as_coeff_unit denote the same unit (on copies: simplify mutates, a C18 matter)
         if k in ("plain", "dimless"):
             w = Unit(u.expr, registry=u.registry)
+            hash(w)  # a unit that was already used as a dict key (hash taken) and is then simplified in place
             s = try_(lambda: w.simplify())
             if s[0] == "ok":
                 sv = s[1]
+                # same expression, same registry state => same hash, whatever was done to the object before
+                try:
+                    fresh = Unit(sv.expr, registry=u.registry)
+                    if fresh.expr == sv.expr and not (hash(sv) == hash(fresh) and sv == fresh):
+                        chk.fail(f"hash-after-simplify|{k}", "a unit hashed, then simplified, hashes differently from a unit built from the same expression",
+                                 {"python": snippet(hdr + "w = Unit(u.expr, registry=u.registry); hash(w); s = w.simplify(); f = Unit(s.expr, registry=u.registry)\n"
+                                                    "assert f.expr != s.expr or (hash(s) == hash(f) and s == f), (s, hash(s), hash(f))\n")})
+                except Exception:  # noqa: BLE001
+                    chk.count("rebuild-raised")
                 ok = sv.dimensions == u.dimensions and math.isclose(sv.base_value, u.base_value, rel_tol=1e-12)
                 try:
                     cf, cu = sv.as_coeff_unit()
@@ -184,6 +194,8 @@ def run(tier, seed):
             return round(float(q), 7), repr(round(float(q), 7))
         return (sympy.Rational(q.numerator, q.denominator), f"__import__('sympy').Rational({q.numerator},{q.denominator})")
 
+    from unyt.exceptions import InvalidUnitOperation
+
     plain = [n for n in names if kind(pool[n][2]) in ("plain", "dimless") and pool[n][2].base_value > 0]
     ntr = 1500 if tier == "quick" else 40000
     for _ in range(ntr):
@@ -194,41 +206,58 @@ def run(tier, seed):
         hdr = pre_for(a, b, c) + f"u = {mk(a)}; v = {mk(b)}; w = {mk(c)}\n"
         chk.case(("triple", a, b, c))
         chk.count("triple")
-        l, r = (u * v) * w, u * (v * w)
-        if not finite(l, r, u * v, v * w):
-            chk.count("overflow-skipped")
-        elif not (same_unit(l, r) and hash(l) == hash(r) and math.isclose(l.base_value, r.base_value, rel_tol=1e-12)):
-            chk.fail("assoc", "(u*v)*w != u*(v*w)", {"python": snippet(hdr + "l = (u*v)*w; r = u*(v*w)\nassert l == r and l.expr == r.expr and hash(l) == hash(r), (l, r)\n")})
-        p, q = rng.choice(exps), rng.choice(exps)
-        style = rng.choice(["rational", "float", "trunc"])
-        pa, ps = as_arg(p, style)
-        qa, qs = as_arg(q, style)
-        pqa, pqs = as_arg(p * q, style if style != "trunc" else "float")
-        chk.count("pow:" + style)
-        l, r = (u ** pa) ** qa, u ** pqa
-        if not finite(l, r, u ** pa):
-            chk.count("overflow-skipped")
-        elif not (same_unit(l, r) and math.isclose(l.base_value, r.base_value, rel_tol=1e-9)):
-            chk.fail(f"pow-pow|{style}", "(u**p)**q != u**(p*q)", {"python": snippet(hdr + f"l = (u**{ps})**{qs}; r = u**{pqs}\nassert l == r and l.expr == r.expr, (l, r)\n")})
-        l, r = (u * v) ** pa, u ** pa * v ** pa
-        if not finite(l, r, u * v, u ** pa, v ** pa):
-            chk.count("overflow-skipped")
-        elif not (same_unit(l, r) and math.isclose(l.base_value, r.base_value, rel_tol=1e-9)):
-            chk.fail(f"mul-pow|{style}", "(u*v)**p != u**p * v**p", {"python": snippet(hdr + f"l = (u*v)**{ps}; r = u**{ps}*v**{ps}\nassert l == r and l.expr == r.expr, (l, r)\n")})
-        # scale/dimension homomorphism for powers
-        up = u ** pa
+        # a compound that carries a logarithmic factor (e.g. B*counts**4) is refused by the guards of
+        # __mul__/__pow__: that is the documented refusal case of the laws, not a failure of them
+        # units carrying a (fractional power of a) logarithmic or offset factor are refused by the guards of
+        # __mul__/__pow__ at some step: that is the documented refusal case of the laws, not a failure of them
         try:
-            want_scale = u.base_value ** float(p)
-        except OverflowError:
-            want_scale = float("inf")
-        if finite(up) and not (core.close(up.base_value, want_scale, 1e-9) and up.dimensions == u.dimensions ** sympy.Rational(p.numerator, p.denominator)):
-            chk.fail(f"hom-pow|{style}", "scale/dimension of u**p is not scale**p / dim**p", {"python": snippet(hdr + f"up = u**{ps}\nassert math.isclose(up.base_value, u.base_value**{float(p)!r}, rel_tol=1e-9)\n")})
-        if not a.startswith("reg:"):
+            l, r = (u * v) * w, u * (v * w)
+            if not finite(l, r, u * v, v * w):
+                chk.count("overflow-skipped")
+            elif not (same_unit(l, r) and hash(l) == hash(r) and math.isclose(l.base_value, r.base_value, rel_tol=1e-12)):
+                chk.fail("assoc", "(u*v)*w != u*(v*w)", {"python": snippet(hdr + "l = (u*v)*w; r = u*(v*w)\nassert l == r and l.expr == r.expr and hash(l) == hash(r), (l, r)\n")})
+            p, q = rng.choice(exps), rng.choice(exps)
+            style = rng.choice(["rational", "float", "trunc"])
+            pa, ps = as_arg(p, style)
+            qa, qs = as_arg(q, style)
+            pqa, pqs = as_arg(p * q, style if style != "trunc" else "float")
+            chk.count("pow:" + style)
+            l, r = (u ** pa) ** qa, u ** pqa
+            if not finite(l, r, u ** pa):
+                chk.count("overflow-skipped")
+            elif not (same_unit(l, r) and math.isclose(l.base_value, r.base_value, rel_tol=1e-9)):
+                chk.fail(f"pow-pow|{style}", "(u**p)**q != u**(p*q)", {"python": snippet(hdr + f"l = (u**{ps})**{qs}; r = u**{pqs}\nassert l == r and l.expr == r.expr, (l, r)\n")})
+            l, r = (u * v) ** pa, u ** pa * v ** pa
+            if not finite(l, r, u * v, u ** pa, v ** pa):
+                chk.count("overflow-skipped")
+            elif not (same_unit(l, r) and math.isclose(l.base_value, r.base_value, rel_tol=1e-9)):
+                chk.fail(f"mul-pow|{style}", "(u*v)**p != u**p * v**p", {"python": snippet(hdr + f"l = (u*v)**{ps}; r = u**{ps}*v**{ps}\nassert l == r and l.expr == r.expr, (l, r)\n")})
+            # scale/dimension homomorphism for powers
+            up = u ** pa
             try:
-                model_lines.append("\t".join(["upow"] + gen.unit_wire_fields(u) + [gen.rat_str(p)]))
-                model_expect.append(("upow", a, str(p), ("ok", up)))
-            except ValueError:
-                pass
+                want_scale = u.base_value ** float(p)
+            except OverflowError:
+                want_scale = float("inf")
+            if finite(up) and not (core.close(up.base_value, want_scale, 1e-9) and up.dimensions == u.dimensions ** sympy.Rational(p.numerator, p.denominator)):
+                chk.fail(f"hom-pow|{style}", "scale/dimension of u**p is not scale**p / dim**p", {"python": snippet(hdr + f"up = u**{ps}\nassert math.isclose(up.base_value, u.base_value**{float(p)!r}, rel_tol=1e-9)\n")})
+            if not a.startswith("reg:"):
+                try:
+                    model_lines.append("\t".join(["upow"] + gen.unit_wire_fields(u) + [gen.rat_str(p)]))
+                    model_expect.append(("upow", a, str(p), ("ok", up)))
+                except ValueError:
+                    pass
+        except InvalidUnitOperation:
+            chk.count("triple-guard-refused")
+        except (TypeError, OverflowError, ZeroDivisionError) as e_:
+            # scale arithmetic left the double range (e.g. (1e-132)**2.5 underflows to 0, then 0**-2 is sympy's zoo):
+            # outside the claim, like the overflow-skipped cases above; anything else is a failure of the laws
+            mags = [abs(math.log10(x.base_value)) for x in (u, v, w)]
+            if max(mags) * 8 > 250:
+                chk.count("overflow-skipped")
+            else:
+                chk.fail("law-raises|" + core.exc_name(e_), f"a unit-algebra law raised {e_!r} on in-range units",
+                         {"python": snippet(hdr + "p = (u*v)*w; q = u*(v*w)\n")})
+
     # equality by (scale, offset, dimension) only — spelled differently
     for x, y in [("J", "N*m"), ("J", "kg*m**2/s**2"), ("W", "J/s"), ("Pa", "N/m**2"), ("Hz", "1/s"), ("erg", "g*cm**2/s**2"), ("V", "W/A"), ("ohm", "V/A"), ("T", "Wb/m**2")]:
         chk.case(("eq", x, y))
